@@ -463,12 +463,25 @@ def use_boolean_backend(sec):
         sec.crypto = BooleanBackend(sec.crypto)
 
 
+def _late_metadata(spec, cnf):
+    """Deployment knob `late_md`: the entity starts with an empty metadata store (configured, no source yet) and the
+    application loads the federation's metadata into the running object afterwards.  -> the paths to load later."""
+    if not spec.get("late_md"):
+        return []
+    paths = list(cnf["metadata"]["local"])
+    cnf["metadata"] = {"local": []}
+    return paths
+
+
 class IdPNode(Node):
     def build(self):
         with self.world.on(self.name):
             cnf = file_config(self.world, self.spec, list(self.peer_view.values()))
+            late = _late_metadata(self.spec, cnf)
             self.server = Server(config=IdPConfig().load(copy.deepcopy(cnf)))
             self.server.config.context = "idp"
+            for path_ in late:
+                self.server.metadata.load("local", path_)
             if self.spec.get("bool_backend"):
                 use_boolean_backend(self.server.sec)
         self.endpoints = idp_endpoints(self.name)
@@ -487,6 +500,7 @@ class SPNode(Node):
     def build(self):
         with self.world.on(self.name):
             cnf = file_config(self.world, self.spec, list(self.peer_view.values()))
+            late = _late_metadata(self.spec, cnf)
             if self.spec.get("plain_config"):
                 # the documented all-in-one deployment: one plain Config object holding an "sp" section next to
                 # an "idp" one, no default context
@@ -498,6 +512,8 @@ class SPNode(Node):
                 conf = SPConfig().load(copy.deepcopy(cnf))
                 conf.context = "sp"
             self.client = Saml2Client(config=conf)
+            for path_ in late:
+                self.client.metadata.load("local", path_)
             if self.spec.get("bool_backend"):
                 use_boolean_backend(self.client.sec)
         self.endpoints = sp_endpoints(self.spec)
